@@ -28,6 +28,7 @@ def sgn(v, b): return v - (1 << b) if v >> (b - 1) else v
 class Unsupported(Exception): pass
 class MemError(Exception): pass
 CALL_REAL = object()      # returned by an external-function handler: run the function's own IR after all
+class GarbageUse(MemError): pass   # an index / address computed from never-written heap bytes (garbage_heap mode): a finding about the code under test, not a limit of the executor
 class PathEnd(Exception): pass      # a modelled noreturn (abort, assert fail, throw) ends this path
 class CxxThrow(Exception):
     """a C++ exception in flight: object address + mangled name of its std::type_info"""
@@ -575,7 +576,9 @@ class Exec:
     def addmul(self, off, i, sz, t):
         if isinstance(i, int) and isinstance(off, int): return off + i * sz
         return self.sym_index(off, i, sz, t)
-    def sym_index(self, off, i, sz, t): raise Unsupported('symbolic gep index')
+    def sym_index(self, off, i, sz, t):
+        if z3.is_expr(i) and 'garbi_' in str(i): raise GarbageUse('an address is computed from heap storage that was never written (index %s)' % str(i)[:80])
+        raise Unsupported('symbolic gep index')
 
     # ---------------- int ops
     def ibin(self, op, a, b, bits):
